@@ -30,10 +30,15 @@ def ag_obs(o, canon_obs):
             n[7] = list(n[7]); n[7][2] = _ttc(n[7][2])
     return c
 
+def err_class(e):
+    """the harness catches the real exception by the classes the API documents (`except LookupError`), the driver prints
+    the exact class the translated code raised: KeyError / IndexError are LookupErrors"""
+    return 'LookupError' if e in ('KeyError', 'IndexError') else e
+
 def ag_step_same(op, st, a, go, canon_obs, canon_out) -> bool:
     """impl step `st` (already canonicalised as `a` = [err, out, obs]) against the generated-code step `go`: error class,
     query result, canonical state of the graph and of the other side of a deep copy"""
-    if st['err'] != go['err'] or a[1] != canon_out(op, go['out']): return False
+    if st['err'] != err_class(go['err']) or a[1] != canon_out(op, go['out']): return False
     g = canon_obs(go['obs'])
     if g != a[2] and ag_obs(go['obs'], canon_obs) != ag_obs(st['obs'], canon_obs): return False
     if (st['other'] is None) != (go['other'] is None): return False
@@ -164,7 +169,7 @@ def run_wild(pid, seed, n, res):
                 # a mutator that may have raised half-way (everything but the add_* calls, which check before they change
                 # anything; also where only objects outside the graph were touched and the observable state looks unchanged):
                 # only the fact and the class of the exception can be compared; the history ends here
-                if go['err'] != st['err']:
+                if err_class(go['err']) != st['err']:
                     res.violations.append(divergence(pid, op['k'], f'on the exception of step {i} ({op["k"]}) of a history outside the invariants',
                         {'ops': ops[:i + 1], 'impl_err': st['err'], 'generated_err': go['err']}))
                 res.bump('wild_history_cut:raised-half-way'); break
